@@ -94,6 +94,9 @@ mod inner {
 
 #[cfg(unix)]
 mod tz_info;
+#[cfg(all(unix, feature = "__verif"))]
+#[doc(hidden)]
+pub use tz_info::verif;
 
 /// The local timescale.
 ///
